@@ -106,6 +106,10 @@ class _SubprocessShim:
         return None
 
 
+# directories of the layout stream (relative to <scratch>/lay); "" is the root of the tree
+LAY_DIRS = ["", "pkg", "pkg/doc", "other", "other/sub", "empty"]
+
+
 class Impl:
     def __init__(self, ford, root: Path):
         self.ford = ford
@@ -139,6 +143,11 @@ class Impl:
             other = self.root / "elsewhere" / "deep"
             other.mkdir(parents=True, exist_ok=True)
             cwd, addr = other, "../../proj/p.md"
+        return self._start(cwd, addr, argv, config)
+
+    def _start(self, cwd, addr, argv, config):
+        """`cd cwd; ford <argv> [--config config] addr` up to the end of ford.initialize()"""
+        ford = self.ford
         args = ["ford", addr] + list(argv)
         if config is not None:
             args += ["--config", config]
@@ -165,6 +174,33 @@ class Impl:
             if hasattr(pf, "close"):
                 pf.close()
         return res
+
+    def lay_out(self, proj_rel, md_lines, manifests):
+        """(Re)create the directory tree `<root>/lay` of the layout stream: the project file
+        `<proj_rel>/ford.md` and, per directory, what `fpm.toml` is there (`None` = nothing, `"<dir>"` = a
+        directory of that name, else the text of the file)."""
+        import shutil
+
+        lay = self.root / "lay"
+        if lay.exists():
+            shutil.rmtree(lay)
+        for rel in LAY_DIRS:
+            (lay / rel).mkdir(parents=True, exist_ok=True)
+        (lay / proj_rel / "ford.md").write_text(
+            "\n".join(md_lines) + "\n\nProject text.\n" if md_lines else "Project text.\n")
+        for rel, text in manifests.items():
+            if text is None:
+                continue
+            f = lay / rel / "fpm.toml"
+            if text == "<dir>":
+                f.mkdir()
+            else:
+                f.write_text(text)
+        return lay
+
+    def run_layout(self, lay, cwd_rel, addr, argv, config=None):
+        self.n += 1
+        return self._start(lay / cwd_rel if cwd_rel != "<scratch>" else self.root, addr, argv, config)
 
     def observe(self, data, log):
         obs = {}
@@ -962,6 +998,263 @@ def bad_case(cx: Ctx, opts, baseline_runs):
                                    observed=o[0], message=(o[3][:200] if o[0] == "err" else "accepted")), cls)
 
 
+
+# --------------------------------------------------------------------------
+# layout stream (round 6): where the options are taken from
+# --------------------------------------------------------------------------
+
+
+def manifest_state(text):
+    """The harness's own reading of one `fpm.toml` (from the property statement: the options are "the `[extra.ford]`
+    table of fpm.toml"): (state, keyword table)"""
+    if text is None or text == "<dir>":
+        return "absent", None
+    try:
+        data = tomllib.loads(text)
+    except tomllib.TOMLDecodeError:
+        return "invalid", None
+    if "extra" not in data:
+        return "noExtra", None
+    if not isinstance(data["extra"], dict) or "ford" not in data["extra"]:
+        return "noFord", None
+    return "ford", data["extra"]["ford"]
+
+
+def layout_request(cmd, lay, cwd, addr, pkg, manifests, md_lines, cli_kv):
+    r = [cmd, str(cwd), addr, pkg]
+    ents = []
+    for rel, text in manifests.items():
+        st, kw = manifest_state(text)
+        if st == "absent":
+            continue
+        ents.append((os.path.normpath(str(lay / rel)), st, kw or {}))
+    r.append(str(len(ents)))
+    for d, st, kw in ents:
+        r += [d, st, str(len(kw))]
+        for k, v in kw.items():
+            r += [k, enc_val(v)]
+    r += [str(len(md_lines))] + list(md_lines)
+    r += ["0", "0"]
+    r += [str(len(cli_kv))]
+    for k, v in cli_kv:
+        r += [k, enc_val(v)]
+    return r
+
+
+def addr_spellings(rng, lay, cwd_abs: Path, pf_abs: Path):
+    """ways of naming the project file on the command line from the working directory"""
+    rel = os.path.relpath(pf_abs, cwd_abs)
+    head, _, name = rel.rpartition("/")
+    messy = [("./" + rel), (head + "//" + name if head else "./" + name),
+             ((head + "/./" + name) if head else "././" + name),
+             os.path.join("..", cwd_abs.name, rel) if cwd_abs != lay.parent and cwd_abs.name else rel]
+    return {"abs": str(pf_abs), "rel": rel, "messy": rng.choice(messy)}
+
+
+def cli_argv(cx, cli):
+    argv, cli_kv = [], []
+    for dest, (kind, flags) in cx.cli.items():
+        if dest not in cli:
+            continue
+        vals = cli[dest]
+        fl = flags[cx.rng.randrange(len(flags))]
+        if kind == "append":
+            for x in vals:
+                argv += [fl, x]
+            cli_kv.append((dest, list(vals)))
+        elif kind == "store":
+            argv += [fl, vals]
+            cli_kv.append((dest, vals))
+        elif kind == "storeTrue":
+            argv += [fl]
+            cli_kv.append((dest, True))
+        elif kind == "storeFalse":
+            argv += [fl]
+            cli_kv.append((dest, False))
+    return argv, cli_kv
+
+
+DISTRACTOR_KINDS = ["ford", "ford", "ford", "ford", "ford-empty", "noFord", "noFord2", "noExtra", "invalid", "<dir>", "emptyfile"]
+
+
+def distractor_text(cx, kind, usable):
+    """an fpm.toml of another package: (text, abstract options or None)"""
+    rng = cx.rng
+    if kind == "ford":
+        chosen = rng.sample(usable, rng.choice([1, 2, 3]))
+        opts = []
+        for n, t in chosen:
+            v = gen_value(rng, n, t, cx.specials.get(n, ()))
+            if n == "creation_date":
+                v = v.replace("%", "pc")
+            opts.append((n, t, v))
+        kw, _ = toml_data(rng, opts, scalar_ok=False)
+        return toml_text_for(kw), opts
+    return {"ford-empty": 'name = "other"\n[extra.ford]\n', "noFord": 'name = "other"\n[extra]\nfoo = 1\n',
+            "noFord2": '[extra.fordx]\nproject = "no"\n[extra.other.ford]\nproject = "neither"\n',
+            "noExtra": 'name = "other"\n[ford]\nproject = "not this table"\n[build]\nauto-tests = true\n',
+            "invalid": "this is [not toml\n", "<dir>": "<dir>", "emptyfile": ""}[kind], None
+
+
+def layout_case(cx: Ctx, usable, stored=None):
+    """One project (options in the metadata block, or in the manifest next to the project file), manifests of other
+    packages lying in the other directories, FORD started from several working directories with several spellings of
+    the project file's path.
+      O3  every start gives the same result (settings, or the same error class)
+      O6  what the project's own source says is effective, relative paths from the project file's directory
+      O2  a command-line option wins, from every working directory
+    + exact correspondence of every start with the model (`c15.effl`: dirname, lookup table, manifest states)."""
+    rng, rep = cx.rng, cx.rep
+    if stored is None:
+        proj_rel = rng.choice(["pkg/doc", "pkg/doc", "pkg", "other/sub"])
+        fmt = rng.choice(["md", "md", "toml"])
+        chosen = rng.sample(usable, rng.choice([1, 2, 3, 4]))
+        opts = []
+        for n, t in chosen:
+            v = gen_value(rng, n, t, cx.specials.get(n, ()))
+            if n == "creation_date":
+                v = v.replace("%", "pc")
+            opts.append((n, t, v))
+        seps = cx.t["seps"]
+        md, manifests = [], {}
+        if fmt == "md":
+            md = ["---"]
+            for key, t, v in opts:
+                md += md_lines_for(rng, key, t, v, seps.get(key, "="))
+            md.append(rng.choice(["---", "..."]))
+            own = rng.choice([None, None, None, "<dir>", "noExtra", "noFord", "noFord2", "emptyfile"])
+            manifests[proj_rel] = None if own is None else distractor_text(cx, own, usable)[0]
+            own_kind = "none" if own is None else own
+        else:
+            kw, _ = toml_data(rng, opts, scalar_ok=False)
+            manifests[proj_rel] = toml_text_for(kw)
+            own_kind = "ford"
+        others = [d for d in LAY_DIRS if d != proj_rel]
+        with_ford = []
+        for d in others:
+            if rng.random() < 0.6:
+                kind = rng.choice(DISTRACTOR_KINDS)
+                manifests[d] = distractor_text(cx, kind, usable)[0]
+                cx.count("layout:elsewhere:" + kind)
+                if kind == "ford":
+                    with_ford.append(d)
+        if not with_ford:
+            d = rng.choice(others)
+            manifests[d] = distractor_text(cx, "ford", usable)[0]
+            cx.count("layout:elsewhere:ford")
+            with_ford.append(d)
+        cli = gen_cli(cx) if rng.random() < 0.3 else {}
+        starts = [("<scratch>", "abs")]
+        pool = [(d, st) for d in LAY_DIRS for st in ("abs", "rel", "messy")]
+        starts += rng.sample(pool, 2)
+        starts.append((rng.choice(with_ford), rng.choice(["abs", "rel", "messy"])))
+        if proj_rel not in [c for c, _ in starts]:
+            starts.append((proj_rel, "rel"))
+        cx.count("layout:own-source:" + fmt + "/" + own_kind)
+    else:
+        proj_rel, fmt, md, manifests, cli, starts = (stored[k] for k in ("project_dir", "fmt", "md", "manifests", "cli", "starts"))
+        opts = [tuple(o) for o in stored["options"]]
+        starts = [tuple(x) for x in starts]
+    lay = cx.impl.root / "lay"
+    pf_abs = lay / proj_rel / "ford.md"
+    proj_abs = Path(os.path.normpath(str(lay / proj_rel)))
+    desc = {"stream": "layout", "project_dir": proj_rel, "fmt": fmt, "options": [list(o) for o in opts], "md": md,
+            "manifests": manifests, "cli": cli, "starts": [list(x) for x in starts]}
+    argv, cli_kv = cli_argv(cx, cli)
+    results = []
+    for cwd_rel, style in starts:
+        cx.impl.lay_out(proj_rel, md, manifests)
+        cwd_abs = cx.impl.root if cwd_rel == "<scratch>" else Path(os.path.normpath(str(lay / cwd_rel)))
+        addr = style if style not in ("abs", "rel", "messy") else addr_spellings(rng, lay, cwd_abs, pf_abs)[style]
+        obs = cx.impl.run_layout(lay, cwd_rel, addr, argv)
+        cx.evals += 1
+        cx.count("layout:start:" + ("project-dir" if cwd_abs == proj_abs else "scratch" if cwd_rel == "<scratch>" else
+                                    "cwd-has-ford-table" if manifest_state(manifests.get(cwd_rel))[0] == "ford" else
+                                    "cwd-other-manifest" if manifests.get(cwd_rel) is not None else "cwd-no-manifest")
+                 + "/" + (style if style in ("abs", "rel", "messy") else "stored"))
+        d1 = dict(desc, cwd=cwd_rel, addr=addr)
+        kws = [manifest_state(t)[1] for t in manifests.values()]
+        if all(encodable(v) for kw in kws if kw for v in kw.values()):
+            cmd = "c15.efflr" if cx.eff_cmd == "c15.effr" else "c15.effl"
+            cx.pending.append((layout_request(cmd, lay, cwd_abs, addr, cx.pkg, manifests, md, cli_kv), obs, d1))
+        results.append((cwd_rel, addr, obs))
+    cx.distinct.add(common.digest(("layout", proj_rel, fmt, repr(opts), repr(sorted(manifests.items())), repr(starts))))
+    ref_cwd, ref_addr, ref = results[0]
+    # ---- O3: the same project file, the same files: the same result from every working directory
+    for cwd_rel, addr, o in results[1:]:
+        a, b = strip_time(ref), strip_time(o)
+        if a != b:
+            if a[0] == "ok" and b[0] == "ok":
+                diff = {k: (a[1].get(k), b[1].get(k)) for k in a[1] if a[1].get(k) != b[1].get(k)}
+            else:
+                diff = {ref_cwd: a[:3] if a[0] == "err" else "ok", cwd_rel: b[:3] if b[0] == "err" else "ok",
+                        "message": (o[3][:200] if o[0] == "err" else ref[3][:200] if ref[0] == "err" else "")}
+            cx.n_oracle_fail += 1
+            rep.failing_input(dict(desc, oracle="O3 independent of working directory (same project file, same files on disk)",
+                                   start_a={"cwd": ref_cwd, "project_file": ref_addr},
+                                   start_b={"cwd": cwd_rel, "project_file": addr,
+                                            "fpm.toml in that working directory": manifests.get(cwd_rel)},
+                                   difference=diff), None)
+            break
+    # ---- O6 / O2 on every start
+    for cwd_rel, addr, o in results:
+        if o[0] != "ok":
+            continue
+        bad = False
+        for key, t, v in opts:
+            if key in cli:
+                continue
+            miss = file_expectation(proj_abs, key, t, v, o[1], cx.t["licenses"], cx.t["intrinsic"])
+            if miss is not None:
+                cls = None
+                if isinstance(miss, tuple):
+                    cls, miss = miss
+                cx.n_oracle_fail += 1
+                rep.failing_input(dict(desc, oracle="O6 what the project's own settings source says is effective, relative paths from "
+                                                    "the project file's directory", cwd=cwd_rel, project_file=addr, option=key,
+                                       written=v, expected=miss, observed=o[1].get(key)), cls)
+                bad = True
+                break
+        for dest, vals in cli.items():
+            if dest not in cx.fields or bad:
+                continue
+            exp = expected_cli(proj_abs, dest, cx.cli[dest][0], cx.fields[dest], vals)
+            if not cli_wins(dest, exp, o[1]):
+                cx.n_oracle_fail += 1
+                rep.failing_input(dict(desc, oracle="O2 command line wins", cwd=cwd_rel, project_file=addr, option=dest,
+                                       expected=exp, observed=o[1].get(dest)), None)
+                bad = True
+        if bad:
+            break
+    return results
+
+
+def dirname_micro(cx: Ctx, n):
+    """`os.path.dirname` + resolution of the project directory against `c15.dirname` (exact)"""
+    rng = cx.rng
+    segs = ["a", "doc", "..", ".", "", "p.md", "x y", ".h", "ford.md", "b.c"]
+    reqs, exp = [], []
+    for _ in range(n):
+        k = rng.choice([0, 1, 1, 2, 3, 4])
+        addr = ("/" if rng.random() < 0.3 else "") + "/".join(rng.choice(segs) for _ in range(k + 1))
+        if rng.random() < 0.1:
+            addr = rng.choice(["/", "//", "///a", "a/", "a//", "/a", "p.md", "./p.md", "../p.md", "//a//b"])
+        cwd = "/" + "/".join(rng.choice(["w", "pkg", "deep", "x"]) for _ in range(rng.choice([1, 2, 3])))
+        if addr.startswith("//") and not addr.startswith("///"):
+            continue   # POSIX: exactly two leading slashes are kept by normpath (assumption: no leading '//')
+        reqs.append(["c15.dirname", cwd, addr])
+        d = os.path.dirname(addr)
+        exp.append(["ok", d, os.path.normpath(os.path.join(cwd, d))])
+    bad = 0
+    for rq, e, r in zip(reqs, exp, cx.drv.batch(reqs)):
+        if list(r) != e:
+            bad += 1
+            if bad <= 3:
+                cx.rep.tie_broken(f"correspondence dirname: {rq[1:]} impl {e} model {r}", {"stream": "micro-dirname", "request": rq})
+    cx.count("micro:dirname", len(reqs))
+    return len(reqs), bad
+
+
 def gen_cli(cx: Ctx):
     rng = cx.rng
     cli = {}
@@ -1124,6 +1417,10 @@ def replay_file(cx: Ctx, rep, lean, path):
             opts = [tuple(o) for o in c["options"]]
             well_typed_case(cx, opts, c.get("cli") or {}, "combo")
             n += 1
+        elif c.get("stream") == "layout" and c.get("manifests") is not None:
+            usable = [(n_, t_) for n_, t_, _ in cx.t["schema"] if t_ not in ("noInit", "other")]
+            layout_case(cx, usable, stored=c)
+            n += 1
         elif c.get("stream") == "bad":
             key = c.get("key", "")
             for fmt in ("md", "toml", "config"):
@@ -1173,6 +1470,7 @@ def run(tier: str, seed: int, replay: str | None = None) -> int:
     n_micro = 1500 if quick else 15000
     n_combo = 260 if quick else 4000
     n_bad = 160 if quick else 2500
+    n_layout = 220 if quick else 3000
     reps_single = 3 if quick else 12
     with common.scratch_dir() as d0:
         d = Path(os.path.realpath(d0))
@@ -1252,6 +1550,15 @@ def run(tier: str, seed: int, replay: str | None = None) -> int:
                          "config": cx.run([], None, kw, {}, 0, {"stream": "bad-base", "toml": kw})}
             bad_case(cx, opts, base_runs)
             if k % 50 == 49:
+                cx.flush()
+        cx.flush()
+        # ---- layout (round 6): source selection, several working directories, manifests elsewhere
+        ev_dn, bad_dn = dirname_micro(cx, 300 if quick else 3000)
+        ev_micro += ev_dn
+        bad_micro += bad_dn
+        for k in range(n_layout):
+            layout_case(cx, usable)
+            if k % 40 == 39:
                 cx.flush()
         cx.flush()
     drv.close()
